@@ -224,7 +224,8 @@ def main() -> int:
     fam = enum_exps.c01_family(False)
     # programs where the compiler dropped an op (offset gaps) and gap-free ones; all routine kinds; failing sources
     srcs = fam[:: (160 if not thorough else 8)] + [gen_exps.random_program(rng, max_depth=1, max_stmts=rng.choice([2, 3, 4])) for _ in range(60 if not thorough else 2000)]
-    srcs += ["def 0 { a(''); b(\"\", 0, -1, 0.0); return; }", "def 0 { a({english=''}); b(Position<'', 0, 0>); return; }",
+    srcs += ["def 0 { switch ($S) { case 1: a(); case 2: b(); } forever { c(); } }",      # witness of the repaired 'empty trailing default'
+             "def 0 { a(''); b(\"\", 0, -1, 0.0); return; }", "def 0 { a({english=''}); b(Position<'', 0, 0>); return; }",
              "def 0 { a(); return; }", "coro A { a(); return; }\ncoro B { b(); end; }", "def 0 { if ($V == 1) { a(); } b(); return; }",
              "def 0 for actor 3 { a(); hold; }\ndef 1 for object OBJ_X { while ($V == 1) { b(); } return; }", "def 0 { break; }", "def 0 { x(", "def 0 { jump @nowhere; }", ""]
     bad_c, bad_d = invalid_invocations()
@@ -258,7 +259,7 @@ def main() -> int:
     beh = [(i, r["behaviour"]) for i, r in enumerate(recs) if r.get("behaviour")]
     for i, b in beh:
         if b["status"] != "ok":
-            rep.violation("cli:decompiled-text-rejected", {"src": recs[i]["src"][:1200], "text": recs[i]["text"][:1200]})
+            rep.violation("cli:decompiled-text-rejected", {"src": recs[i]["src"][:3000], "text": recs[i]["text"][:8000]})
     ok = [(i, b) for i, b in beh if b["status"] == "ok"]
     for j, kind, det in byte_check(rep, [b for _, b in ok], "cli", "C15"):
         i = ok[j][0]
